@@ -169,6 +169,9 @@ class Module:
             self.inlined = inline_new_helpers(self.tree, name)
         except RecursionError:
             self.inlined = []
+        if self.inlined:
+            self.idioms += normalise_idioms(self.tree)  # forms exposed by inlining (renaming walrus, get-or-create ...)
+            ast.fix_missing_locations(self.tree)
         self.imports: dict[str, str] = {}
         self.functions: dict[str, Func] = {}
         self.classes: dict[str, Class] = {}
